@@ -20,6 +20,10 @@
 //	stall     the same against a vt peer: receiver known parked on a full queue / peer known stalled
 //	unsup     operations the pattern does not have -> ErrProtoOp, no side effect
 //	device    Device on cooked / mismatched / nil sockets -> designated error, no side effect
+//	tlscfg    an accepted TLS-CONFIG (every way crypto/tls lets a config supply its side's needs, every
+//	          route of setting it) is what Get returns and what Listen/Dial then use
+//	subs      SUBSCRIBE/UNSUBSCRIBE scripts over nested topics on the SUB socket and its contexts:
+//	          each receiver delivers exactly what its own set of accepted subscriptions matches
 package c19
 
 import (
@@ -38,6 +42,8 @@ type spec struct {
 	K     int    `json:"k,omitempty"`
 	Dir   string `json:"dir,omitempty"` // resize: which side the socket under test is (listen | dial)
 	Seq   []int  `json:"seq,omitempty"` // resize: queue lengths to cycle through
+	Cli   string `json:"cli,omitempty"`  // tlscfg: shape of the client configuration
+	Seed  int64  `json:"seed,omitempty"` // subs: seed of the subscription script
 }
 
 func TestMain(m *testing.M) { hx.Main(m) }
@@ -146,6 +152,13 @@ func caseList(r *mon.Runner) []mon.CaseSpec {
 			add(spec{Kind: "device", Proto: p, Tran: tr})
 		}
 	}
+	// appended last: the indices (and with them the per-case PRNGs) of the cases above stay what they were
+	for _, s := range tlscfgPlans(r, rnd) {
+		add(s)
+	}
+	for _, s := range subsPlans(r, rnd) {
+		add(s)
+	}
 	return cases
 }
 
@@ -179,6 +192,10 @@ func TestC19(t *testing.T) {
 			runUnsup(c, sp)
 		case "device":
 			runDevice(c, sp)
+		case "tlscfg":
+			runTLSCfg(c, sp)
+		case "subs":
+			runSubs(c, sp)
 		default:
 			panic("unknown case kind " + sp.Kind)
 		}
